@@ -85,6 +85,22 @@ CLONE = {"std::clone::Clone::clone", "std::borrow::ToOwned::to_owned"}
 TAKE = {"std::option::Option::take", "std::mem::take"}
 LOCKS = {"std::sync::Mutex::lock", "std::sync::Mutex::try_lock", "std::sync::RwLock::read", "std::sync::RwLock::write", "std::sync::RwLock::try_read", "std::sync::RwLock::try_write"}
 MAPERR = {"std::result::Result::map_err"}
+MAPOK = {"std::result::Result::map", "std::option::Option::map"}
+TRYBRANCH = {"std::ops::Try::branch"}
+FROMRESIDUAL = {"std::ops::FromResidual::from_residual"}
+
+
+def mk_trybranch(r):
+    """`r?` desugars to match Try::branch(r) { Continue(v) => v, Break(res) => return from_residual(res) }"""
+    if r[0] == "agg" and r[1].endswith("Result::Ok"):
+        return ("agg", "adt:std::ops::ControlFlow::Continue", tuple(r[2]))
+    if r[0] == "agg" and r[1].endswith("Result::Err"):
+        return ("agg", "adt:std::ops::ControlFlow::Break", (r,))
+    if r[0] == "agg" and r[1].endswith("Option::Some"):
+        return ("agg", "adt:std::ops::ControlFlow::Continue", tuple(r[2]))
+    if r[0] == "agg" and r[1].endswith("Option::None"):
+        return ("agg", "adt:std::ops::ControlFlow::Break", (r,))
+    return ("trybranch", r)
 RESOK = {"std::result::Result::ok"}
 UNWRAP_OR = {"std::result::Result::unwrap_or", "std::option::Option::unwrap_or"}
 WRAP = {
@@ -124,6 +140,15 @@ def mk_vfield(base, variant, name):
                 ctor = f[1][3:]
                 return ("agg", "adt:" + ctor, (inner,))
             return ("mapped", f, inner)
+    if base[0] == "trybranch":
+        if variant == "Continue":
+            return mk_vfield(base[1], "Ok", name)
+        if variant == "Break":
+            return ("agg", "adt:std::result::Result::Err", (mk_vfield(base[1], "Err", 0),))
+    if base[0] == "mapok":
+        if variant in ("Ok", "Some"):
+            return ("mapped", base[2], mk_vfield(base[1], variant, name))
+        return mk_vfield(base[1], variant, name)
     if base[0] == "resok":
         if variant == "Some":
             return mk_vfield(base[1], "Ok", name)
@@ -189,6 +214,10 @@ def term_str(t, depth=0):
         return "phi{" + " | ".join(sorted(term_str(x, d) for x in t[1])) + "}"
     if k == "maperr":
         return "map_err(%s, %s)" % (term_str(t[1], d), term_str(t[2], d))
+    if k == "mapok":
+        return "map(%s, %s)" % (term_str(t[1], d), term_str(t[2], d))
+    if k == "trybranch":
+        return "try(%s)" % term_str(t[1], d)
     if k == "resok":
         return "ok(%s)" % term_str(t[1], d)
     if k == "lockres":
@@ -219,10 +248,10 @@ def subterms(t, seen=None):
     elif k == "phi":
         for a in t[1]:
             yield from subterms(a)
-    elif k in ("maperr", "mapped"):
+    elif k in ("maperr", "mapped", "mapok"):
         yield from subterms(t[1])
         yield from subterms(t[2])
-    elif k in ("resok", "lockres"):
+    elif k in ("resok", "lockres", "trybranch"):
         yield from subterms(t[1])
     elif k == "over":
         yield from subterms(t[1])
@@ -540,6 +569,12 @@ class BodyProv:
         ck = ckey(fn)
         if ck in LOCKS and term["args"]:
             return ("lockres", self.operand_term(term["args"][0], bb, "term", stack))
+        if ck in TRYBRANCH and term["args"]:
+            return mk_trybranch(self.operand_term(term["args"][0], bb, "term", stack))
+        if ck in FROMRESIDUAL and term["args"]:
+            return self.operand_term(term["args"][0], bb, "term", stack)
+        if ck in MAPOK and len(term["args"]) == 2 and ck.startswith("std::result"):
+            return ("mapok", self.operand_term(term["args"][0], bb, "term", stack), self.operand_term(term["args"][1], bb, "term", stack))
         if ck in MAPERR and len(term["args"]) == 2:
             return ("maperr", self.operand_term(term["args"][0], bb, "term", stack), self.operand_term(term["args"][1], bb, "term", stack))
         if ck in RESOK and term["args"]:
